@@ -399,6 +399,24 @@ func (op *HOp) render() string {
 	case "chain-assign":
 		// T = (S = lit): the right-hand side is itself an assignment
 		return op.T.String() + " = (" + op.Src.String() + " = " + litText(op.Lit) + ")"
+	case "self-chain":
+		// T = (a modification of T itself): the right-hand side reads, changes
+		// and (when its last step is missing) creates the very location being assigned
+		switch op.Op {
+		case "pre++":
+			return op.T.String() + " = (++" + op.T.String() + ")"
+		case "pre--":
+			return op.T.String() + " = (--" + op.T.String() + ")"
+		case "post++":
+			return op.T.String() + " = (" + op.T.String() + "++)"
+		case "post--":
+			return op.T.String() + " = (" + op.T.String() + "--)"
+		}
+		if strings.HasSuffix(op.Op, "&") {
+			// ... and reads it once more after having changed it
+			return op.T.String() + " = ((" + op.T.String() + " " + strings.TrimSuffix(op.Op, "&") + "= " + fmtNum(op.Num) + ") + " + op.T.String() + ")"
+		}
+		return op.T.String() + " = (" + op.T.String() + " " + op.Op + "= " + fmtNum(op.Num) + ")"
 	case "lit-alias":
 		// a list whose later entry assigns the variable an earlier entry reads: scalars are copied when inserted
 		return fmt.Sprintf("%s = [%s, %s = %s, %s]", op.T.String(), op.Src.String(), op.Src.String(), litText(op.Lit), op.Src.String())
@@ -932,6 +950,37 @@ func (h *Heap) apply(op *HOp) (string, error) {
 		}
 		c2.V, c2.absent = lit, false
 		return "", nil
+	case "self-chain":
+		if err := h.selfChainOK(op); err != nil {
+			return "", err
+		}
+		cur, _ := h.readPath(op.T)
+		n, _ := asNum(cur)
+		var res float64
+		switch op.Op {
+		case "pre++":
+			res = n + 1
+		case "pre--":
+			res = n - 1
+		case "post++", "post--":
+			res = n // the outer assignment stores the old value over the changed one
+		case "+":
+			res = n + op.Num
+		case "-":
+			res = n - op.Num
+		case "+&":
+			res = 2 * (n + op.Num)
+		case "-&":
+			res = 2 * (n - op.Num)
+		default:
+			res = n * op.Num
+		}
+		c, err := h.resolveForWrite(op.T)
+		if err != nil {
+			return "", err
+		}
+		c.V, c.absent = hNum(res), false
+		return "", nil
 	case "lit-alias":
 		src, err := h.readPath(*op.Src)
 		if err != nil {
@@ -1095,6 +1144,10 @@ type HeapCase struct {
 	Doc  string   `json:"doc"` // the input document (one JSON object)
 	Vars []string `json:"vars"`
 	Ops  []HOp    `json:"ops"`
+	// Passes > 1: the document is in the input stream that many times, so the
+	// rule (the same statements) runs again over a fresh $ while the variables
+	// keep what the earlier passes left in them
+	Passes int `json:"passes,omitempty"`
 	// only set in the pinned witnesses of known findings K1 / K3
 	AllowAliasedPad  bool `json:"allow_aliased_pad,omitempty"`
 	AllowMethodKeys  bool `json:"allow_method_keys,omitempty"`
@@ -1292,19 +1345,32 @@ func runHeapCase(c *HeapCase, keep bool) Outcome {
 		op   int
 	}
 	var want []exp
-	want = append(want, exp{"S", h.dump(c.Vars), -1})
 	kinds := map[string]bool{}
-	for i := range c.Ops {
-		r, err := h.apply(&c.Ops[i])
-		if err != nil {
-			o.Skipped = "operation outside the model's domain: " + err.Error()
-			return finish()
+	passes := c.Passes
+	if passes < 1 {
+		passes = 1
+	}
+	input := c.Doc
+	for pass := 0; pass < passes; pass++ {
+		if pass > 0 {
+			fresh, _ := c.newHeap()
+			h.cell("$").V = fresh.cell("$").V
+			input += "\n" + c.Doc
+			o.Probes["further_pass_over_fresh_document"]++
 		}
-		kinds[c.Ops[i].Kind] = true
-		if r != "" {
-			want = append(want, exp{"R", []string{r}, i})
+		want = append(want, exp{"S", h.dump(c.Vars), -1})
+		for i := range c.Ops {
+			r, err := h.apply(&c.Ops[i])
+			if err != nil {
+				o.Skipped = "operation outside the model's domain: " + err.Error()
+				return finish()
+			}
+			kinds[c.Ops[i].Kind] = true
+			if r != "" {
+				want = append(want, exp{"R", []string{r}, i})
+			}
+			want = append(want, exp{"S", h.dump(c.Vars), i})
 		}
-		want = append(want, exp{"S", h.dump(c.Vars), i})
 	}
 	prog := c.program()
 	var out bytes.Buffer
@@ -1315,10 +1381,10 @@ func runHeapCase(c *HeapCase, keep bool) Outcome {
 				kind, msg = "panic", fmt.Sprint(r)
 			}
 		}()
-		_, err := lang.EvalProgram(prog, []lang.InputFile{{Name: "doc.json", Reader: strings.NewReader(c.Doc)}}, nil, &out, false)
+		_, err := lang.EvalProgram(prog, []lang.InputFile{{Name: "doc.json", Reader: strings.NewReader(input)}}, nil, &out, false)
 		kind, msg = classifyErr(err)
 	}()
-	log.add('H', 0, "RUN ops=%d kind=%s msg=%q", len(c.Ops), kind, msg)
+	log.add('H', 0, "RUN ops=%d passes=%d kind=%s msg=%q", len(c.Ops), passes, kind, msg)
 	if keep {
 		log.lines = append(log.lines, "  program:\n"+prog, "  stdout:\n"+truncate(out.String(), 3000))
 	}
@@ -1478,7 +1544,9 @@ func genHeapCase(t *Tape, maxOps int) *HeapCase {
 	n := 3 + t.Draw(maxOps)
 	for tries := 0; len(c.Ops) < n && tries < n*8; tries++ {
 		var op HOp
-		switch t.Weighted(6, 6, 3, 3, 5, 3, 1, 1, 1, 2, 1, 1, 1, 1, 1, 2, 2, 3) {
+		switch t.Weighted(6, 6, 3, 3, 5, 3, 1, 1, 1, 2, 1, 1, 1, 1, 1, 2, 2, 3, 2) {
+		case 18:
+			op = HOp{Kind: "self-chain", T: genHeapPath(t, h, c.Vars, true), Op: []string{"pre++", "pre--", "post++", "post--", "+", "-", "*", "+&", "-&", "+&"}[t.Draw(10)], Num: float64(1 + t.Draw(9))}
 		case 17:
 			op = HOp{Kind: "method", T: genHeapPath(t, h, c.Vars, false), Fn: []string{"pop", "pop", "popfirst", "push"}[t.Draw(4)], Lit: heapScalarLits[t.Draw(len(heapScalarLits))]}
 		case 16:
@@ -1545,6 +1613,32 @@ func genHeapCase(t *Tape, maxOps int) *HeapCase {
 		}
 		c.Ops = append(c.Ops, op)
 	}
+	if t.Chance(1, 3) {
+		// further passes of the same statements over a fresh document; kept only
+		// when every operation stays inside the model's domain in every pass
+		want := 2 + t.Draw(2)
+		h2, _ := c.newHeap()
+		ok := true
+		for pass := 0; pass < want && ok; pass++ {
+			if pass > 0 {
+				fresh, _ := c.newHeap()
+				h2.cell("$").V = fresh.cell("$").V
+			}
+			for i := range c.Ops {
+				if err := h2.dryRun(&c.Ops[i]); err != nil {
+					ok = false
+					break
+				}
+				if _, err := h2.apply(&c.Ops[i]); err != nil {
+					ok = false
+					break
+				}
+			}
+		}
+		if ok {
+			c.Passes = want
+		}
+	}
 	return c
 }
 
@@ -1591,11 +1685,38 @@ func (h *Heap) methodOK(op *HOp) error {
 	return nil
 }
 
+func (h *Heap) selfChainOK(op *HOp) error {
+	if len(op.T.Steps) == 0 {
+		return errUnsupported{"self-chain needs a member or an index"}
+	}
+	cur, err := h.readPath(op.T)
+	if err != nil {
+		return err
+	}
+	if _, ok := asNum(cur); !ok || cur.K == 'u' {
+		return errUnsupported{"arithmetic on a non-number"}
+	}
+	if err := h.prevalidateWrite(op.T); err != nil {
+		return err
+	}
+	if h.createsIntermediate(op.T) && !h.allowChainCreate {
+		return errUnsupported{"the target needs a missing intermediate that the right-hand side creates first (known finding K8)"}
+	}
+	for _, st := range op.T.Steps {
+		if st.IsIdx && st.Idx < 0 {
+			return errUnsupported{"negative index: resolving before or after the right-hand side may differ"}
+		}
+	}
+	return nil
+}
+
 // dryRun reports whether apply would succeed, without mutating the heap.
 func (h *Heap) dryRun(op *HOp) error {
 	switch op.Kind {
 	case "method":
 		return h.methodOK(op)
+	case "self-chain":
+		return h.selfChainOK(op)
 	case "assign-lit":
 		return h.prevalidateWrite(op.T)
 	case "assign-path":
